@@ -210,7 +210,13 @@ func (w *World) K(name string) *Key {
 	return k
 }
 
-func (w *World) initChain() error {
+func (w *World) initChain() (err error) {
+	// a module that panics in InitGenesis (refused genesis document) fails the world, not the process
+	defer func() {
+		if r := recover(); r != nil {
+			err = fmt.Errorf("InitChain panicked: %v", r)
+		}
+	}()
 	app := w.App
 	cdc := w.Cdc
 	genesis := app.DefaultGenesis()
@@ -257,7 +263,7 @@ func (w *World) initChain() error {
 		balances = append(balances, banktypes.Balance{Address: k.Addr.String(), Coins: coins})
 	}
 
-	genesis, err := simtestutil.GenesisStateWithValSet(cdc, genesis, valSet, accs, balances...)
+	genesis, err = simtestutil.GenesisStateWithValSet(cdc, genesis, valSet, accs, balances...)
 	if err != nil {
 		return err
 	}
